@@ -47,6 +47,7 @@ static unsigned char *unhex(const char *s, size_t *n) {
 }
 
 static pthread_t main_thread;
+static volatile int wd_armed;   /* 1 while pam_sm_authenticate is running */
 struct srv { int lfd; char *script; unsigned char *rcv; size_t nrcv, cap; };
 
 static void msleep(long ms) { struct timespec t = { ms / 1000, (ms % 1000) * 1000000L }; nanosleep(&t, NULL); }
@@ -76,7 +77,11 @@ static void *srv_main(void *arg) {
                 while (off < n) { ssize_t w = send(fd, b + off, n - off, MSG_NOSIGNAL); if (w <= 0) break; off += w; }
                 free(b); break; }
     case 'S': msleep(strtol(a + 1, NULL, 10)); break;
-    case 'I': pthread_kill(main_thread, SIGUSR1); msleep(20); break;
+    case 'I': if (wd_armed) pthread_kill(main_thread, SIGUSR1); msleep(20); break;
+    case 'P': { /* P<ms>: for <ms> milliseconds a signal every 150 ms (a host application with a busy timer / SIGCHLD traffic) */
+                long total = strtol(a + 1, NULL, 10);
+                for (long t = 0; t < total && wd_armed; t += 150) { pthread_kill(main_thread, SIGUSR1); msleep(150); }  /* only while the module call is in progress */
+                break; }
     case 'C': srv_read(s, fd, s->nrcv, 0); close(fd); fd = -1; break;
     case 'X': { struct linger l = { 1, 0 }; setsockopt(fd, SOL_SOCKET, SO_LINGER, &l, sizeof l); close(fd); fd = -1; break; }
     }
@@ -87,7 +92,7 @@ static void *srv_main(void *arg) {
 }
 
 /* watchdog: a module call that does not return within 8 s is reported and the process ends */
-static volatile int wd_armed; static volatile long wd_case; static const char *volatile wd_line;
+static volatile long wd_case; static const char *volatile wd_line;
 static void *wd_main(void *arg) {
   (void)arg; long seen = -1; int ticks = 0;
   for (;;) {
@@ -140,13 +145,16 @@ int main(int argc, char **argv) {
     wd_line = line; wd_case = id; wd_armed = 1;
     main_thread = pthread_self();
     if (stale_eintr) errno = EINTR;
+    struct timespec t0, t1; clock_gettime(CLOCK_MONOTONIC, &t0);
     int rc = pam_sm_authenticate(&h, 0, ac, av);
+    clock_gettime(CLOCK_MONOTONIC, &t1);
+    long took_ms = (t1.tv_sec - t0.tv_sec) * 1000 + (t1.tv_nsec - t0.tv_nsec) / 1000000;
     wd_armed = 0;
     if (have_thread) { pthread_join(th, NULL); close(s.lfd); }
     unlink(path);
     printf("%s => %d x", line, rc);
     for (size_t i = 0; i < s.nrcv; i++) printf("%02x", s.rcv[i]);
-    printf("\n"); fflush(stdout);
+    printf(" ms=%ld\n", took_ms); fflush(stdout);
     free(s.rcv); free(s.script); free(user); free(pw); free(h.authtok); free(ocopy); free(copy);
   }
   free(line);
